@@ -219,7 +219,7 @@ pub fn exchange(port: u16, frames: &[Frame], seg: &[usize], sentinel: bool, wait
         let s = Frame::consistent(0x0a, &[], &[], &[], SENTINEL, 0);
         let _ = c.s.write_all(&s.bytes());
     }
-    let (resp, how) = c.read_until(Duration::from_millis(1500), &|b| sentinel && has_opaque(b, SENTINEL));
+    let (resp, how) = c.read_until(Duration::from_millis(6000), &|b| sentinel && has_opaque(b, SENTINEL));
     let lp = c.port;
     let _ = c.s.shutdown(Shutdown::Both);
     (resp, how, delivered, lp)
@@ -256,7 +256,7 @@ pub fn run_history_tcp(h: &History, srv: &Server, out: &mut dyn Write, hist_no: 
         }
         let s = Frame::consistent(0x0a, &[], &[], &[], SENTINEL, 0);
         let _ = c.s.write_all(&s.bytes());
-        let (resp, how) = c.read_until(Duration::from_millis(2000), &|b| has_opaque(b, SENTINEL));
+        let (resp, how) = c.read_until(Duration::from_millis(6000), &|b| has_opaque(b, SENTINEL));
         let rs = parse_responses(&resp);
         // match by opaque, keep arrival order index
         let mut used = vec![false; rs.len()];
@@ -401,7 +401,7 @@ pub fn run_cut_universe(srv: &Server, bytes: &[u8], seg: &[usize], u: usize, com
     } else {
         let _ = c.s.shutdown(Shutdown::Write);
     }
-    let (resp, how) = c.read_until(Duration::from_millis(1500), &|b| complete && has_opaque(b, SENTINEL));
+    let (resp, how) = c.read_until(Duration::from_millis(6000), &|b| complete && has_opaque(b, SENTINEL));
     let lport = c.port;
     let _ = c.s.shutdown(Shutdown::Both);
     if how != "done" {
